@@ -64,6 +64,8 @@ static int end_to_end(unsigned long *calls, unsigned nstreams)
                 uint32_t masks[6] = { 0, 1, 3, 0xf, 0x3f, 0x11 };
                 uint32_t mask = masks[rnd() % 6], trig = (rnd() % 4) ? (uint32_t) rnd() & mask : (uint32_t) rnd() & (mask | 0x21);
                 for (unsigned i = 0; i < total; i++) S[i] = (uint8_t) rnd();
+                /* memory the API has not initialised yet is arbitrary (C20): garbage in the whole state object before init */
+                for (unsigned i = 0; i < sizeof(st); i++) ((uint8_t *) &st)[i] = (uint8_t) rnd();
                 if (isal_rolling_hash2_init(&st, w) || isal_rolling_hash2_reset(&st, S)) { printf("E2E init/reset failed w=%u\n", w); return 1; }
                 unsigned cur = w;
                 while (cur < total) {
